@@ -1,6 +1,6 @@
 #!/bin/bash
 # usage: mut.sh <patchfile | rev:<commit>> <ID> [more check args]   — applies a change to /repo, runs ./check ID, restores /repo
-cd /verif
+cd "$(dirname "$(readlink -f "$0")")"
 src="$1"; shift
 if [ -n "$(git -C /repo status --porcelain --untracked-files=no)" ]; then echo "repo dirty"; exit 9; fi
 case "$src" in
